@@ -22,11 +22,12 @@ Line protocol of the C03 model driver.
       copyvalues hard|soft <m|->:<o> ... / <m|->:<o> ...     (input pairs / output pairs)
       run <n> <c>=<v>|<c>=@<o> ...
       strict <c> 0|1            flag <n> <running 0|1> <failed 0|1>
-      rt <scope c>... [| I=<c,..> RO=<a:b,..> MI=<c,..> RI=<a:b,..> CO=<c,..> RM=<a:b,..>]...
+      rt <scope c>... [| I=<c,..> RO=<a:b,..> MI=<c,..> RI=<a:b,..> KO=<c,..> CO=<c,..> RM=<a:b,..>]...
                                 pickle round trip of the object with channels `scope`; one `|` group per
-                                composite, innermost first (the six fields of `Data.Comp`)
+                                composite, innermost first (the seven fields of `Data.Comp`)
     setup, continued:
-      cfg <revIter 0|1> <pushIn 0|1> <pushOut 0|1>    variant of __setstate__ (current tree: 0 0 1)
+      cfg <revIter> <pushIn> <pushOut> <ownOnly> <allIn>   (0|1 each) variant of __getstate__ / __setstate__
+                                (current tree: 1 0 0 1 0)
 -/
 
 structure St where
@@ -51,7 +52,7 @@ def St.params (st : St) : Params :=
 
 def init0 : St :=
   { s := Data.init (fun _ => .dataIn) (fun _ => 0) (fun _ => false) (fun _ => true) (fun _ => []) (fun _ => []),
-    chans := [], nodes := [], rejects := [], hintbad := [], fuel := 40, cfg := Cfg.pinned }
+    chans := [], nodes := [], rejects := [], hintbad := [], fuel := 40, cfg := Cfg.repaired }
 
 def showVal : Val → String
   | .nd => "ND"
@@ -97,12 +98,13 @@ def field (key w : String) : Option String :=
 
 def parseComp (ws : List String) : Option Comp :=
   match ws with
-  | [i, ro, mi, ri, co, rm] =>
+  | [i, ro, mi, ri, ko, co, rm] =>
     match (field "I" i).bind parseCsv, (field "RO" ro).bind parseMap, (field "MI" mi).bind parseCsv,
-          (field "RI" ri).bind parseMap, (field "CO" co).bind parseCsv, (field "RM" rm).bind parseMap with
-    | some i, some ro, some mi, some ri, some co, some rm =>
-      some { ins := i, resOut := ro, mins := mi, resIn := ri, couts := co, resMOut := rm }
-    | _, _, _, _, _, _ => none
+          (field "RI" ri).bind parseMap, (field "KO" ko).bind parseCsv, (field "CO" co).bind parseCsv,
+          (field "RM" rm).bind parseMap with
+    | some i, some ro, some mi, some ri, some ko, some co, some rm =>
+      some { ins := i, resOut := ro, mins := mi, resIn := ri, kouts := ko, couts := co, resMOut := rm }
+    | _, _, _, _, _, _, _ => none
   | _ => none
 
 /-- split a token list at every "|" -/
@@ -235,10 +237,10 @@ def stepLine (st : St) (ws : List String) : St × List String :=
     match c.toNat?, parseBit b with
     | some c, some b => doOp st (.setStrict c b)
     | _, _ => bad
-  | ["cfg", r, p, q] =>
-    match parseBit r, parseBit p, parseBit q with
-    | some r, some p, some q => ({ st with cfg := ⟨r, p, q⟩ }, [])
-    | _, _, _ => bad
+  | ["cfg", r, p, q, o, a] =>
+    match parseBit r, parseBit p, parseBit q, parseBit o, parseBit a with
+    | some r, some p, some q, some o, some a => ({ st with cfg := ⟨r, p, q, o, a⟩ }, [])
+    | _, _, _, _, _ => bad
   | "rt" :: rest =>
     match groups rest with
     | scope :: comps =>
